@@ -228,95 +228,7 @@ def graddrop_closure(cfgs, n):
     return out
 
 
-# ----------------------------------------------------------------------------- bookkeeping
-class Ctx:
-    def __init__(self):
-        self.viol, self.outcomes = [], set()
-        self.execs = self.nontrivial = self.dropped = 0
-        self.margin, self.maxima, self.counters = 0.0, {}, {}
-
-    def count(self, k, v=1):
-        self.counters[k] = self.counters.get(k, 0) + v
-
-    def call(self, cfg, J):
-        self.execs += 1
-        try:
-            return K.run_agg(cfg, J)
-        except K.LibraryException as e:
-            self.viol.append(dict(sig=f"exception:{cfg['name']}:{type(e.exc).__name__}",
-                                  msg=f"{K.cfg_key(cfg)} J={np.asarray(J).tolist()}: {e.exc!r}"[:500]))
-            return None
-
-    def compare(self, oracle, err, tol, sig, msg):
-        r = err / tol if (tol > 0 and math.isfinite(err)) else (0.0 if err == 0 else math.inf)
-        if r > self.maxima.get(oracle, -1.0):
-            self.maxima[oracle] = r
-        self.margin = max(self.margin, r if math.isfinite(r) else 1e300)
-        self.count("comparisons")
-        if not (r <= 1.0):
-            self.viol.append(dict(sig=sig, msg=(msg() if callable(msg) else msg)[:700], cls=sig))
-            return False
-        return True
-
-    def zero_direction(self, clause, err, tol, msg):
-        """ConFIG at a point where pinv(unit rows) @ pref vanishes in exact arithmetic (0/0 direction): kept apart
-        from the normal oracles; a mismatch is the known-finding candidate 'zero-direction:ConFIG:<clause>'."""
-        self.count("zero-direction:ConFIG evaluated")
-        if not (err <= tol):
-            self.count("zero-direction:ConFIG mismatches")
-            sig = f"zero-direction:ConFIG:{clause}"
-            self.viol.append(dict(sig=sig, msg=(msg() if callable(msg) else msg)[:700], cls=sig))
-
-    def result(self):
-        return dict(viol=self.viol, execs=self.execs, outcomes=sorted(self.outcomes), nontrivial=self.nontrivial,
-                    dropped=self.dropped, margin=self.margin, maxima=self.maxima, counters=self.counters)
-
-
-class Pred:
-    """Per-matrix cache of the well-posedness predicates."""
-
-    def __init__(self, J):
-        self.J = J
-        self.s = A.sigma_max(J)
-        self.integer = K.is_small_integer(J)
-        self._c = {}
-
-    def _get(self, k, fn):
-        if k not in self._c:
-            self._c[k] = fn()
-        return self._c[k]
-
-    def zero_direction(self, cfg):
-        p = cfg.get("p")
-        return self._get(("cfgdir", None if p is None else tuple(p)), lambda: K.config_direction_ratio(self.J, p)) < 1e-6
-
-    def admissible(self, cfg, exact):
-        """None if the comparison may be asserted with the tight tolerance, 'mgda-tie' for the loose MGDA bound,
-        otherwise the name of the predicate that drops it."""
-        J, name = self.J, cfg["name"]
-        if name in K.RANK_SENSITIVE:
-            if not self._get("rank", lambda: K.rank_unambiguous(J)):
-                return "drop:rank"
-            if name == "ConFIG" and not self._get("rank-units", lambda: K.rank_unambiguous(K.unit_rows(J))):
-                return "drop:rank"
-        if name == "IMTLG" and not self._get("imtlg", lambda: K.imtlg_wellposed(J)):
-            return "drop:imtlg-guard"
-        if name == "ConFIG" and self.zero_direction(cfg):
-            return "zero-direction"
-        if exact and self.integer:
-            return None
-        if name == "Krum" and self._get(("krum", cfg["f"], cfg["k"]), lambda: K.krum_margin(J, cfg["f"], cfg["k"])) < 1e-6:
-            return "drop:krum-tie"
-        if name == "MGDA" and self._get("mgda", lambda: K.mgda_trajectory_margin(J)) < 1e-9:
-            return "mgda-tie"
-        if name == "GradDrop":
-            st = K.graddrop_tie_state(J, cfg["U"])
-            if st != "clear":
-                return "drop:graddrop-tie"
-        return None
-
-
-MGDA_LOOSE = 2.0 * math.sqrt(max(8 * K.MGDA_EPS, 16.0 / (K.MGDA_ITERS + 2)))
+Ctx, Pred, MGDA_LOOSE = K.Ctx, K.Pred, K.MGDA_LOOSE
 
 
 def base_checks(ctx, cfg, J, pred, out):
